@@ -745,6 +745,10 @@ func (c *CharSet) addCategory(categoryName string, negate, caseInsensitive bool)
 // Adds to the class any case-equivalence versions of characters already
 // in the class. Used for case-insensitivity.
 func (c *CharSet) addCaseEquivalences() {
+	// a subtracted class removes the case equivalents of its members as well
+	if c.sub != nil {
+		c.sub.addCaseEquivalences()
+	}
 	// we already have all case equiv
 	if c.anything {
 		return
